@@ -49,6 +49,7 @@ type c10Pre struct {
 	primaryTime  uint64
 	replayTime   uint64
 	cachedStage2 []byte
+	inBefore     bool
 }
 
 func runC10(rc *sk.RunCtx) {
@@ -68,6 +69,8 @@ func runC10(rc *sk.RunCtx) {
 		sum  [32]byte
 	}
 	acceptedTime := map[bodyKey]uint64{} // peer-reported time of a stage-1 body, learned when a tunnel was created from it
+	createdFrom := map[bodyKey]*HostInfo{} // the responder tunnel a node created from a stage-1 body
+	firstReply := map[bodyKey][]byte{}     // the reply datagram it sent then
 	var pre *c10Pre
 	caseA, caseB, other := 0, 0, 0
 
@@ -79,11 +82,18 @@ func runC10(rc *sk.RunCtx) {
 		}
 		body := d.data[header.Len:]
 		p := &c10Pre{shape: hostmapShape(to)}
-		for _, hi := range sortedHostInfos(to.f.hostMap) {
-			if bytes.Equal(hi.HandshakePacket[handshakePacketStage0], body) && hi.ConnectionState != nil && !hi.ConnectionState.initiator {
+		// which held tunnel was created from exactly these bytes: the harness's own record, made when the tunnel
+		// appeared (the node's cached copy of the first message is implementation state that may be dropped or
+		// rewritten, and used to be what this oracle looked at)
+		key := bodyKey{to, sha256.Sum256(body)}
+		if hi := createdFrom[key]; hi != nil {
+			to.f.hostMap.RLock()
+			held := to.f.hostMap.Indexes[hi.localIndexId] == hi
+			to.f.hostMap.RUnlock()
+			if held {
 				p.matching = hi
-				p.cachedStage2 = hi.HandshakePacket[handshakePacketStage2]
-				break
+				p.cachedStage2 = firstReply[key]
+				p.inBefore = hi.in.Load()
 			}
 		}
 		// who sent it originally? find the node owning the source underlay address
@@ -117,6 +127,10 @@ func runC10(rc *sk.RunCtx) {
 				rc.Fail("replay-delivered", "node %d wrote to its tun on a replayed first handshake message", ob.to.idx)
 				return
 			}
+			if !p.inBefore && p.matching.in.Load() {
+				rc.Fail("replay-counted-as-traffic", "node %d: a re-delivered first handshake message of tunnel %d marked that tunnel as having received traffic (the next liveness check will treat the replay as proof of life and may promote the tunnel)", ob.to.idx, p.matching.localIndexId)
+				return
+			}
 			for _, s := range ob.sent {
 				if !bytes.Equal(s.data, p.cachedStage2) || s.to != d.from {
 					var sh header.H
@@ -137,7 +151,18 @@ func runC10(rc *sk.RunCtx) {
 		// learn the peer-reported time of bodies that created a tunnel
 		for _, hi := range sortedHostInfos(ob.to.f.hostMap) {
 			if hi.ConnectionState != nil && !hi.ConnectionState.initiator && bytes.Equal(hi.HandshakePacket[handshakePacketStage0], body) {
-				acceptedTime[bodyKey{ob.to, sha256.Sum256(body)}] = hi.lastHandshakeTime
+				k := bodyKey{ob.to, sha256.Sum256(body)}
+				acceptedTime[k] = hi.lastHandshakeTime
+				if createdFrom[k] == nil && p.matching == nil {
+					// (right after the delivery that created it: the cached first message is still the one just processed)
+					createdFrom[k] = hi
+					for _, s := range ob.sent {
+						var sh header.H
+						if sh.Parse(s.data) == nil && sh.Type == header.Handshake && s.to == d.from {
+							firstReply[k] = append([]byte(nil), s.data...)
+						}
+					}
+				}
 			}
 		}
 	}
